@@ -54,10 +54,10 @@ claim("C14",
       "abstract evaluation of the purge name set + syntax-directed normalisation/ordering rules",
       "DESIGN.md §4 C14")
 claim("C03",
-      "Decides necessary conditions of right-closed, right-labelled resampling for all timestamps: the merge aggregator by value numbering; for every branch of the collapse walk (interpreted once with a symbolic window) the label the candle is filed under satisfies label - tf < ts <= label and lies on the bucket grid, proved in the polyhedra domain with the rounding axioms, and the window invariant is re-established; every path places the popped candle exactly once; merges go to the last bucket only; the two bucket-edge helpers are floor-division/modulo of one elapsed-time expression; a Hexital gives each timeframe its own deep copy. The walk's loop invariant over run-time timestamps is not decided.",
-      "Assumes whole-second timestamps (clean_timestamp identity) and non-decreasing input. That (start,end] stays aligned with the last bucket for every pattern/append composition is a loop invariant and not decided.",
-      "abstract interpretation with symbolic window + Fourier-Motzkin entailment per branch; value numbering of merge and bucket helpers",
-      "DESIGN.md §4 C03")
+      "Decides right-closed, right-labelled resampling by an inductive argument over the collapse walk, for all timestamps: (1) the merge aggregator by value numbering; (2) for every branch (walk interpreted once with a symbolic window) the label a candle is filed under satisfies label - tf < ts <= label and lies on the bucket grid, proved in the polyhedra domain with the rounding axioms; (3) the predicate 'label of the last bucket is the window start or end, end = start + tf' holds on entry and is re-established by every branch (inductive invariant by predicate abstraction); under it and the precondition that a candle is not older than the last bucket (true for non-decreasing streams and for re-collapsing old buckets plus new candles, by (2)'s lower bound) (4) no path reaches the InvalidCandleOrder arm and (5) every appended label is strictly greater than the last one; (6) every path places the popped candle exactly once and stores the rebuilt list; merges go to the last bucket only; the bucket-edge helpers are floor-division/modulo of one elapsed-time expression; each timeframe of a Hexital collapses its own deep copy. Together: each candle lands in its bucket, buckets are strictly increasing and aggregate by (1), for every stream and append composition.",
+      "Assumes whole-second timestamps (clean_timestamp is the identity on the axis) and present timestamps (a first candle without timestamp returns early; noted). Interplay with gap filling is C12; trimming C15.",
+      "abstract interpretation with symbolic window: per-branch Fourier-Motzkin proofs, inductive invariant by predicate abstraction, totality and monotonicity; value numbering of merge and bucket helpers",
+      "DESIGN.md §4 C03, §10")
 claim("C11",
       "Decides the HA formulas on both cases by flow-sensitive value numbering of convert_candle's post-state, the conversion typestate (save -> convert -> reset -> tag, once per candle, ascending), the soundness of the resume scan's fall-through, statelessness of the shared converter, merge's restore/clear protocol and the task order. Equality with the recurrence under every append composition is not decided.",
       "Equality under all append compositions (and combined with collapsing) quantifies over histories and is not decided.",
